@@ -326,8 +326,12 @@ def gen_hist(rng, n, spec_fn, raw34_fn):
             elif k < 0.9:
                 s = spec_fn(rng, cls)
                 ops.append(["F", s, rng.random() < 0.4])
-            else:
+            elif k < 0.94:
                 ops.append(["C"])
+            elif k < 0.98:
+                ops.append(["I"])        # t = t.inv()
+            else:
+                ops.append(["K"])        # t = pickle.loads(pickle.dumps(t))
             if rng.random() < 0.45:
                 # look at the object between two assignments (as_affine / apply / compose / inv / param):
                 # an observation must not influence what later operations and observations return
@@ -606,6 +610,7 @@ class ExtMixin:
         # ---- operations
         optoks = []
         nops = 0
+        inverted = False
         if t is not None:
             for op in c["ops"]:
                 k = op[0]
@@ -648,6 +653,44 @@ class ExtMixin:
                         lv, _ = f44_leaves(c["cls"], M)
                         optoks.append(f"F {frs(a34(M))} {lv}")
                         t.from_matrix44(M)
+                    elif k == "I":
+                        # t = t.inv(): leaves of as_affine() of the current state and of from_matrix44(inverse)
+                        v0 = np.asarray(t._vec12, dtype=float)
+                        M0 = np.asarray(t.as_affine(), dtype=float)
+                        import scipy.linalg as spl
+                        ok = bool(np.all(np.isfinite(M0))) and mag(M0) < 1e3 and mag(v0[3:]) < 1e3 \
+                            and np.linalg.cond(M0[:3, :3]) < 50
+                        # the inverse must be representable too (to_matrix44 clips translations at MAX_DIST
+                        # and log-scales at LOG_MAX_DIST)
+                        ok = ok and mag(spl.inv(M0)) < 1e3
+                        if not ok:      # ill-conditioned / thresholded state: look only (as an observation)
+                            nops -= 1
+                            try:
+                                t.inv()
+                            except Exception:     # noqa: BLE001
+                                pass
+                            continue
+                        Mi = spl.inv(M0)
+                        lv, _ = f44_leaves(c["cls"], Mi)
+                        sc0 = np.exp(clip(v0[6:9], LOG_MAX_DIST))
+                        optoks.append(f"I {trig(v0[3:6])} {frs(sc0)} {trig(v0[9:12])} {lv}")
+                        u = t.inv()
+                        inverted = True
+                        if type(u) is not type(t):
+                            fail = fail or f"{c['cls']}.inv() returned a {type(u).__name__}"
+                        d = far(np.asarray(u.as_affine(), dtype=float) @ M0, np.eye(4), 5e-7 * (1 + mag(Mi)) * (1 + mag(M0)))
+                        if d and in_class(c["cls"], v0):
+                            fail = fail or (f"{c['cls']}.inv() in a history is not the inverse of the current "
+                                            f"transform: {d}")
+                        t = u
+                    elif k == "K":
+                        import pickle
+                        optoks.append("K")
+                        u = pickle.loads(pickle.dumps(t))
+                        if type(u) is not type(t) or far(u._vec12, t._vec12, 0) or far(u._precond, t._precond, 0) \
+                                or bool(u._direct) != bool(t._direct):
+                            fail = fail or f"a pickled {c['cls']} does not come back with the same state"
+                        t = u
                     else:
                         optoks.append("C")
                         u = t.copy()
@@ -670,7 +713,7 @@ class ExtMixin:
         isint = np.asarray(t._vec12).dtype.kind in "iu"
         head = " ".join(statuses) + f" | {1 if t._direct else 0} {1 if isint else 0}"
         impl.append(("headvals", head, list(v) + list(np.asarray(t._precond, dtype=float)),
-                     1e-12 * (1 + mag(v))))
+                     (1e-9 if inverted else 1e-12) * (1 + mag(v))))
         lines.append(line)
         if isint:
             tags.append("int-storage")
